@@ -197,7 +197,7 @@ def run(ctx):
                     m = umap.UMAP(metric=metric, force_approximation_algorithm=True, **kw).fit(X)
                 elif form == "knn":
                     D32 = D.astype(np.float32)
-                    extra = int(rng.choice([0, 1, 3]))          # the table may be wider than n_neighbors: only its first k columns count
+                    extra = [1, 3, 0][(t // len(forms)) % 3]     # the table may be wider than n_neighbors: only its first k columns count
                     kidx_w, kdist_w = gen.exact_knn(D32, min(k + extra, n))
                     kidx, kdist = kidx_w[:, :k], kdist_w[:, :k]
                     m = umap.UMAP(metric=metric, precomputed_knn=(kidx_w, kdist_w.astype(np.float32), None), **kw).fit(X)
